@@ -1613,41 +1613,4 @@ theorem chkExpired_model (ha : AInv (step st op).1) : chkExpired sp op (stepObs 
 
 end
 
-/-! ### The enabled clauses, one step and the induction over the trace -/
-
-/-- The clauses of the specification that are proved of every trace of the model so far.  Not yet
-    enabled: `flexible_trigger`, `trigger_cascade`, `fixed_started_in_window` (their content is proved at the level of the model's functions above, not yet
-    through the specification's bookkeeping), and `started_when_triggered` / `end_has_start`, which are false of the code (F-C05c). -/
-def coreMask : Clause → Bool
-  | .existence | .droppedResult | .inDowntimeIff | .depthEqCount | .triggerWriteOnce | .triggerOnlyInWindow | .startOnce
-  | .endOnce | .removedEvent | .expiredRemoved | .ownerProtected => true
-  | _ => false
-
-theorem specStep_core (sp : SpecSt) (st : St) (op : Op) (hrel : RelS sp st) (hnd : (idsOf st.dts).Nodup)
-    (T : Int) (hs : SInv T (step st op).1) (hpe : ∀ d ∈ (step st op).1.dts, PEnd d)
-    (ha : AInv (step st op).1) :
-    specStepM coreMask sp op (stepObs st op).2 = none := by
-  have hs' : SInv' T (step st op).1 := fun d hd => (hs.2.2 d hd).2.2.2.2.1
-  simp only [specStepM, specChecks, firstFailM, coreMask, chkInDt_model sp st op hrel hnd,
-    chkExpired_model sp st op hrel hnd ha, existence_model sp st op hrel hnd, chkDropped_model sp st op hrel hnd, chkRemovedEvent_model sp st op hrel hnd, chkOwner_model sp st op hrel hnd,
-    chkEndOnce_model sp st op hrel hnd (fun d hd => (hpe d hd).1),
-    chkDepth_model sp st op hrel hnd, chkWriteOnce_model sp st op hrel hnd, chkWindow_model sp st op hrel hnd,
-    chkWindowGone_model sp st op hrel hnd, chkStartOnce_model sp st op hrel hnd T hs']
-  simp
-
-theorem trace_core (ops : List Op) : ∀ (sp : SpecSt) (st : St) (T : Int), RelS sp st → (idsOf st.dts).Nodup →
-    SInv T st → (∀ d ∈ st.dts, PEnd d) → AInv st → WF T ops →
-    specTraceM coreMask sp (trace st ops) = none := by
-  induction ops with
-  | nil => intro _ _ _ _ _ _ _ _ _; rfl
-  | cons op ops ih =>
-    intro sp st T hrel hnd hs hpe ha hw
-    obtain ⟨h1, h2, h3⟩ := hw
-    have hs' := sinv_step T st op hs h1 h2
-    have hpe' := pend_step st op hpe
-    have ha' := ainv_step st op ha (by have := hs.1; have := hs.2.1; omega) h2
-    simp only [trace, specTraceM]
-    rw [specStep_core sp st op hrel hnd op.now hs' hpe' ha']
-    exact ih _ _ op.now (relS_step sp st op hrel hnd) (nodup_step st op hnd) hs' hpe' ha' h3
-
 end Icinga.C05
